@@ -992,3 +992,33 @@ func absorbingConstKept(src string) (found bool) {
 	visit(p.Expression())
 	return found
 }
+
+// multiConstAndOr: known finding transform-refold-combines-constants - the
+// folded expression contains an and / or with two or more constant operands.
+func multiConstAndOr(src string) (found bool) {
+	defer func() {
+		if e := recover(); e != nil {
+			found = false
+		}
+	}()
+	p := qry.NewQueryParser(src, nil, nil)
+	p.EqToIs = true
+	var visit func(e ast.Node) ast.Node
+	visit = func(e ast.Node) ast.Node {
+		if n, ok := e.(*ast.Nary); ok && (n.Tok == tok.And || n.Tok == tok.Or) {
+			k := 0
+			for _, x := range n.Exprs {
+				if _, ok := x.(*ast.Constant); ok {
+					k++
+				}
+			}
+			if k > 1 {
+				found = true
+			}
+		}
+		e.Children(visit)
+		return e
+	}
+	visit(p.Expression())
+	return found
+}
